@@ -33,6 +33,10 @@ pub struct PropDef {
     pub panic_is_violation: bool,
 }
 
+pub fn last_panic() -> String {
+    LAST_PANIC.with(|p| p.borrow().clone())
+}
+
 thread_local! {
     static LAST_PANIC: std::cell::RefCell<String> = const { std::cell::RefCell::new(String::new()) };
 }
@@ -160,7 +164,7 @@ fn main() {
 
 /// Arithmetic-overflow panics and bounds panics inside the library are C20-class events in
 /// every property ("arithmetic that is only correct because release builds wrap").
-fn is_ub_or_overflow_panic(msg: &str) -> bool {
+pub fn is_ub_or_overflow_panic(msg: &str) -> bool {
     msg.contains("attempt to ") && msg.contains("overflow")
         || msg.contains("unsafe precondition")
         || msg.contains("attempt to divide by zero")
